@@ -27,6 +27,8 @@ The model mirrors the Go control flow as it is AFTER the three `fix:` patches of
 Storage faults are a parameter (`Fault`): the place where the wrapped any-store fails.
 No Mathlib; everything is computable (the driver links this file).
 -/
+import AnySyncModel.Generated.KVShape
+
 namespace AnySync.KV
 
 /-- One wire value. `slot` is the interned envelope `KeyPeerId`, `innerSlot` the interned
@@ -191,7 +193,8 @@ def chunks {α : Type} (n : Nat) : Nat → List α → List (List α)
   | 0, _ => []
   | fuel + 1, l => if l.isEmpty then [] else l.take (n + 1) :: chunks n fuel (l.drop (n + 1))
 
-def applyBatchSize : Nat := 100
+/-- `const applyBatchSize`, regenerated from keyvalue.go on every run -/
+def applyBatchSize : Nat := Generated.KV.applyBatchSize
 
 /-- client `a` runs `syncWithPeer` against server `b` (no storage faults) -/
 def exchange (a b : State) : State × State :=
